@@ -210,6 +210,13 @@ def histories(ctx):
     h.do({"kind": "revoke", "tref": ["refresh", r[3]]})
     h.do({"kind": "revoke", "tref": ["unknown", 0]})
     hs.append(("code", h.reqs))
+    # the same flow by a public client (authentication method none)
+    h = Hist(ctx)
+    c = h.do({"kind": "authorize", "user": "alice", "client": "pub"})
+    t = h.do({"kind": "redeem", "ref": c[2], "client": "pub"})
+    h.do({"kind": "refresh", "ref": t[3], "client": "pub"})
+    h.do({"kind": "redeem", "ref": c[2], "client": "pub"})
+    hs.append(("code-public-client", h.reqs))
     # refusals of the code flow
     h = Hist(ctx)
     h.do({"kind": "authorize", "user": None})
